@@ -158,6 +158,7 @@ type Frame struct {
 	unwinding bool
 	depth     int
 	binds     []Val // free variable bindings
+	watcher   *watcher // frame runs a goroutine that was waiting on a channel
 }
 
 func (f *Frame) clone() *Frame {
@@ -187,6 +188,8 @@ type Config struct {
 	old       *State       // entry snapshot (top-level function)
 	trace     []string
 	heldLocks []heldLock // mutexes with a lock invariant currently held on this path
+	pendingW  []*watcher // goroutines to try to run after a close / cancel
+	closedNow bool       // a channel was just closed: run watchers after the instruction
 }
 
 type heldLock struct {
@@ -202,6 +205,7 @@ func (c *Config) clone() *Config {
 	n.loops = append([]*loopEntry(nil), c.loops...)
 	n.trace = append([]string(nil), c.trace...)
 	n.heldLocks = append([]heldLock(nil), c.heldLocks...)
+	n.pendingW = nil
 	return n
 }
 
